@@ -94,6 +94,16 @@ func checkEncode(fs *gen.FileSpec, labels map[string]int) (string, bool) {
 	if err != nil {
 		return "HARNESS: " + err.Error(), false
 	}
+	if fs.SubSecond || fs.ZonedUTC {
+		if prof.TweakTimes(f, fs.SubSecond, fs.ZonedUTC) > 0 {
+			if fs.SubSecond {
+				labels["times with a fractional part"]++
+			}
+			if fs.ZonedUTC {
+				labels["date_time fields shown in a zone"]++
+			}
+		}
+	}
 	aliased := 0
 	if fs.Aliased {
 		// the File's arrays are overlapping views of one buffer
@@ -143,6 +153,7 @@ func checkEncode(fs *gen.FileSpec, labels map[string]int) (string, bool) {
 			return "Encode wrote into memory of the caller that is not part of the File: " + msg, false
 		}
 	} else if fresh, err := gen.BuildFile(fs); err == nil {
+		prof.TweakTimes(fresh, fs.SubSecond, fs.ZonedUTC)
 		if a, b := prof.FileValues(f), prof.FileValues(fresh); a != b {
 			return fmt.Sprintf("Encode changed the values of the File it was given (its arrays are views of one buffer):\nbefore:\n%s\nafter:\n%s", trunc(b), trunc(a)), false
 		}
@@ -156,6 +167,7 @@ func checkEncode(fs *gen.FileSpec, labels map[string]int) (string, bool) {
 		if fs.Aliased {
 			prof.AliasArrays(again)
 		}
+		prof.TweakTimes(again, fs.SubSecond, fs.ZonedUTC)
 		return fit.Encode(w, again, order(fs.BigEndian))
 	}); msg != "" {
 		return "Encode: " + msg, false
